@@ -60,7 +60,7 @@ def build_cases(tier, seed):
         s = seed * 100000 + 18000 + i
         spec, steps = queue_spec(s)
         ctrl = {"stack": ["ChargingFleetManager", {"benign_queue": {"p_leave": [0.0, 0.03, 0.08][i % 3], "p_abandon": [0.0, 0.02, 0.05][(i // 3) % 3]}}]}
-        cases.append(trace_case("C18", i, s, {}, ctrl, steps, ["C18"], spec=spec))
+        cases.append(trace_case("C18", i, s, {}, ctrl, steps, ["C18"], spec=spec, opts=({"cosim_ops": {"every": 12, "kinds": ["append_plugs"]}} if i % 4 == 3 else {})))
     return cases
 
 
